@@ -297,8 +297,11 @@ _REF = {}
 
 def load_ref(tree, pkg="c19ref"):
     """the pyccel-annotated sources of `tree` as pure Python under private names"""
-    if pkg in _REF:
-        return _REF[pkg]
+    tree = os.path.realpath(tree)
+    if (pkg, tree) in _REF:
+        return _REF[(pkg, tree)]
+    if any(k[0] == pkg for k in _REF):        # a worker serves cases of several builds (the incremental stage edits a source): one private package per tree
+        pkg = "%s_%d" % (pkg, len(_REF))
     import importlib.machinery
     import importlib.util
     import types
@@ -323,7 +326,7 @@ def load_ref(tree, pkg="c19ref"):
         loader.exec_module(m)
         assert os.path.realpath(m.__file__) == os.path.realpath(path) and m.__file__.endswith(".py")
         out[mod] = m
-    _REF[pkg] = out
+    _REF[(pkg.split("_")[0], tree)] = out
     return out
 
 
